@@ -486,6 +486,23 @@ def ctx_evals_match(F, want):
 
 
 # ----------------------------------------------------------------------------- scenarios for native replay
+REALISABLE_ERRORS = ("DivideByZero", "Value", "InvalidOp", "Attribute", "Binding", "Argument")
+
+
+def prefer_realisable(F):
+    """constraints that pick, where the path leaves it open, error kinds for which a CEL
+    expression failing that way is known (used only to choose among counterexamples)"""
+    def prefs():
+        ex = F.ex
+        out = []
+        for g in F.evals:
+            e = err_payload(ex, g["ret"])
+            if not isinstance(e.discr, int):
+                out.append(z3.Or([e.discr == ex.variant_index(e, k) for k in REALISABLE_ERRORS]))
+        return out
+    return prefs
+
+
 def mval(model, term):
     return model.eval(term, model_completion=True)
 
@@ -586,15 +603,16 @@ def make_check(ref_fn, ctx_style=False, macro="?"):
                 return "pred" if (three and k == 1) else "value"
             return style_of_code(k)
         scen = make_scenario(macro, F, soc)
+        pref = prefer_realisable(F)
         try:
             combos = run_reference(ex, lambda A: ref_fn(A, F))
         except SpecMismatch as e:
-            V.check(ex, "evaluation protocol", False, detail=str(e), scenario=scen)
+            V.check(ex, "evaluation protocol", False, detail=str(e), scenario=scen, prefer=pref)
             return
         for assumed, exp in combos:
             V.witness(exp.result[0] + (":" + exp.note.split(" at ")[0] if exp.note else ""))
             V.check(ex, f"result is {exp.result[0]}", result_matches(ex, res.ret, exp.result), assumed,
-                    detail=lambda: f"expected {exp.result} ({exp.note}); returned {res.ret!r}", scenario=scen)
+                    detail=lambda: f"expected {exp.result} ({exp.note}); returned {res.ret!r}", scenario=scen, prefer=pref)
             if exp.evals is not None:
                 if ctx_style:
                     ok, why = ctx_evals_match(F, exp.evals)
@@ -603,7 +621,7 @@ def make_check(ref_fn, ctx_style=False, macro="?"):
                     if ref_fn is ref_reduce:
                         codes = {F.code(2)}
                     ok, why = evals_match(F, exp.evals, codes)
-                V.check(ex, "body evaluations: order, multiplicity, bindings, early stop", ok, assumed, detail=why, scenario=scen)
+                V.check(ex, "body evaluations: order, multiplicity, bindings, early stop", ok, assumed, detail=why, scenario=scen, prefer=pref)
     return check
 
 
